@@ -32,8 +32,8 @@ type c06req struct {
 	pushSeq   uint64 // first push onto the heap
 	deqSeq    uint64 // last time the processing loop took it off the heap
 	inHeap    bool
-	overtook  string // better-ranked requests that were in the heap when it was last taken off
-	skipSeq   uint64 // the loop took it off the heap and dropped it (verdict already claimed)
+	overtook  string        // better-ranked requests that were in the heap when it was last taken off
+	skipSeq   uint64        // the loop took it off the heap and dropped it (verdict already claimed)
 	incT      time.Duration // instant of the quota increment that admitted it
 	incSeq    uint64
 	incOK     bool
@@ -51,10 +51,20 @@ type c06req struct {
 
 func runC06(s *kernel.Sim) {
 	tp := s.Tape
+	// profile 0-3: only the harness tasks are scheduled at lock sites; 4-5: the
+	// engine's own goroutines (processing loop, TTL watcher, removal) too, so that
+	// e.g. a TTL can elapse in the middle of one quota check of the loop; 5 also
+	// picks settings in which requests outlive their TTL in a closed quota window
+	profile := tp.Choose(6)
+	bgYield := profile >= 4
 	qMax := int64(tp.Range(1, 2))
-	qWin := tp.Range(1, 3)
+	qWin := tp.Range(1, 5)
 	qSize := int64(tp.Range(1, 4))
 	ttlS := tp.Range(1, 5)
+	if profile == 5 {
+		qMax, ttlS = 1, tp.Range(1, 2)
+		qWin = ttlS + tp.Range(2, 3)
+	}
 	usePrio := tp.Chance(2, 3)
 	nArr := tp.Range(2, 10)
 	cancelAt := -1
@@ -66,7 +76,7 @@ func runC06(s *kernel.Sim) {
 	TTL := time.Duration(ttlS) * time.Second
 	W := time.Duration(qWin) * time.Second
 	const tick = 100 * time.Millisecond
-	const slack = time.Second
+	const slack = 300 * time.Millisecond
 	s.Knobs["quota_max"], s.Knobs["quota_window_s"], s.Knobs["queue_size"], s.Knobs["ttl_s"] = qMax, qWin, qSize, ttlS
 	s.Knobs["prio"], s.Knobs["arrivals"], s.Knobs["cancel_at_step"], s.Knobs["lock_sites"] = usePrio, nArr, cancelAt, density
 
@@ -102,11 +112,11 @@ func runC06(s *kernel.Sim) {
 	// in a third of the runs the engine's own background goroutines (processing
 	// loop, TTL watcher, removal goroutines) are schedulable at lock sites too, so
 	// that e.g. a TTL can elapse in the middle of one quota check of the loop
-	bgYield := tp.Chance(1, 3)
 	settling := false
+	advancing := false // inside a multi-tick clock jump: engine goroutines run freely
 	s.Knobs["background_goroutines_schedulable"] = bgYield
 	s.YieldOn = func(point string, a []string, harness bool) bool {
-		if settling || !isLockPoint(point) {
+		if settling || !isLockPoint(point) || (advancing && !harness) {
 			return false
 		}
 		return (harness || bgYield) && siteOn(a[0])
@@ -247,13 +257,26 @@ func runC06(s *kernel.Sim) {
 	// node" fault. Deadlines are not judged across such an interval.
 	type span struct{ from, to time.Duration }
 	var bgStalls []span
-	bgOverlap := func(from, to time.Duration) bool {
-		for _, b := range bgStalls {
-			if b.from <= to && from <= b.to {
-				return true
+	// deadline(t): the engine must have acted on something due at t once it has had
+	// `slack` of time in which neither the processing loop nor the TTL watcher was
+	// stalled. Stall intervals that begin before that are waited out (chained).
+	deadline := func(t time.Duration) time.Duration {
+		iv := append([]span(nil), bgStalls...)
+		sort.Slice(iv, func(i, j int) bool { return iv[i].from < iv[j].from })
+		for changed := true; changed; {
+			changed = false
+			for _, b := range iv {
+				if b.from <= t+slack && b.to > t {
+					t, changed = b.to, true
+				}
 			}
 		}
-		return false
+		return t + slack
+	}
+	// only the goroutines that hand out verdicts count: the processing loop and the
+	// TTL watcher (a stalled removal goroutine delays nobody's verdict)
+	decides := func(t *kernel.Task) bool {
+		return !t.Harness && (strings.HasSuffix(t.Origin, ".process") || strings.HasSuffix(t.Origin, ".manageTTLs"))
 	}
 	maxSteps := 70
 	if bgYield {
@@ -298,15 +321,96 @@ func runC06(s *kernel.Sim) {
 					targets = append(targets, e, e-1, e+1, e+2)
 				}
 			}
+			// a request the loop has taken off the heap and not yet put back or admitted
+			// is in the loop's hands; its TTL elapsing right then is the rare arbitration
+			// between the loop and the TTL watcher, so those instants are preferred
+			var held []time.Duration
+			for _, r := range waiting() {
+				if r.pushed && !r.inHeap && r.arrive+TTL > now {
+					held = append(held, r.enqT+TTL+2*time.Millisecond, r.enqT+TTL+150*time.Millisecond)
+				}
+			}
+			race := len(held) > 0 && tp.Chance(2, 3)
+			if race {
+				targets = held
+			}
 			target := targets[tp.Choose(len(targets))]
+			// Stalling an engine goroutine across a clock jump is a fault, not the rule:
+			// mostly the engine's goroutines first run on to their timers (in an order
+			// the tape picks) and the jump is made tick by tick, the goroutines woken on
+			// the way running on at once, so that the deadlines stay sharp.
+			drainBG := func(choose bool) {
+				for i := 0; i < 400; i++ {
+					var bg []*kernel.Task
+					for _, t := range s.ParkedTasks() {
+						if !t.Harness {
+							bg = append(bg, t)
+						}
+					}
+					if len(bg) == 0 {
+						break
+					}
+					k := 0
+					if choose {
+						k = tp.Choose(len(bg))
+					}
+					s.Resume(bg[k])
+				}
+			}
+			if bgYield && !race && !tp.Chance(1, 5) {
+				drainBG(true)
+				// all but the last tick of the jump pass with the engine's goroutines
+				// running freely, as they do when they are not scheduled at all
+				if s.Now()+tick < target {
+					advancing = true
+					s.SleepUntil(target - tick)
+					advancing = false
+				}
+				parked = s.ParkedTasks()
+				now = s.Now()
+			}
+			for _, r := range waiting() {
+				if r.pushed && !r.inHeap && r.enqT+TTL > now && r.enqT+TTL < target {
+					s.Probe("ttl_elapsed_while_loop_holds_request")
+				}
+			}
 			for _, t := range parked {
-				if !t.Harness && target > now {
+				if decides(t) && target > now {
 					bgStalls = append(bgStalls, span{now, target})
 					s.FaultFired("engine_goroutine_stalled_at_lock_site")
 					break
 				}
 			}
 			s.SleepUntil(target)
+			// an engine goroutine woken by a timer inside the jump and parked at a
+			// lock site stayed there for the rest of it
+			for _, t := range s.ParkedTasks() {
+				if decides(t) && t.ParkedAt < s.Now() {
+					bgStalls = append(bgStalls, span{t.ParkedAt, s.Now()})
+					s.FaultFired("engine_goroutine_stalled_at_lock_site")
+				}
+			}
+			// place the rare state on purpose: let the processing loop run on, lock
+			// site by lock site, until it has a waiting request in its hands, and leave
+			// it there (the next clock step then prefers that request's expiry)
+			if bgYield && tp.Chance(1, 2) {
+				for i := 0; i < 60; i++ {
+					inHands := false
+					for _, r := range waiting() {
+						inHands = inHands || (r.pushed && !r.inHeap)
+					}
+					var loop *kernel.Task
+					for _, t := range s.ParkedTasks() {
+						if !t.Harness && strings.HasSuffix(t.Origin, ".process") {
+							loop = t
+						}
+					}
+					if inHands || loop == nil {
+						break
+					}
+					s.Resume(loop)
+				}
+			}
 		}
 		quiescentChecks()
 	}
@@ -348,7 +452,7 @@ func runC06(s *kernel.Sim) {
 			s.Violate("R1", "verdict-mismatch", "%s returned allowed=%v but the queue granted=%v expired=%v refused=%v", r.id, r.allowed, r.granted, r.expired, r.refused)
 		}
 		stalled := r.task.StallEnd > 0
-		if !stalled && !cancelled && r.end > r.arrive+TTL+slack && !bgOverlap(r.arrive, r.end) {
+		if !stalled && !cancelled && r.end > deadline(r.arrive+TTL) {
 			s.Violate("R1", "late-verdict", "%s arrived %v, returned at %v, TTL %v + slack %v exceeded without any imposed stall", r.id, r.arrive, r.end, TTL, slack)
 		}
 		// the verdict itself (grant) must fall inside the request's own TTL window
@@ -357,11 +461,17 @@ func runC06(s *kernel.Sim) {
 			if r.incOK {
 				gT = r.incT // the decision instant; the signal may follow later when the loop is slow
 			}
-			if gT > enqT+TTL+slack && !bgOverlap(enqT, gT) {
+			if gT > deadline(enqT+TTL) {
+				for _, t := range s.Tasks() {
+					if !t.Harness {
+						s.Event("debug.task", t.Name, t.Origin, t.Point, fmt.Sprint(t.ParkedAt), fmt.Sprint(t.Parked()))
+					}
+				}
+				s.Event("debug.stalls", fmt.Sprint(bgStalls))
 				s.Violate("R1", "late-grant", "%s entered the queue at %v and was granted at %v, later than TTL %v + slack %v", r.id, enqT, gT, TTL, slack)
 			}
 		}
-		if cancelled && !stalled && r.end > cancelT+slack && r.end > r.arrive+TTL+slack && !bgOverlap(cancelT, r.end) {
+		if cancelled && !stalled && r.end > cancelT+slack && r.end > deadline(r.arrive+TTL) && r.end > deadline(cancelT) {
 			s.Rule("R5")
 			s.Violate("R5", "waiter-not-released-on-shutdown", "%s still waited at %v, shutdown was at %v", r.id, r.end, cancelT)
 		}
